@@ -525,7 +525,8 @@ pub struct PbdCase {
 }
 
 fn pbd_strategy(_: &Ctx) -> BoxedStrategy<PbdCase> {
-    let bone = (prop_oneof![3 => ident(), 1 => Just("j_sebo_a".to_string())], vec(any::<u32>(), 12));
+    // one bone name in ten is long (60..300 characters: around and beyond 64, 128 and 256)
+    let bone = (prop_oneof![6 => ident(), 2 => Just("j_sebo_a".to_string()), 1 => gen::from_alphabet("j_abcdefghijklmnopqrstuvwxyz0123456789", 60, 300)], vec(any::<u32>(), 12));
     vec((any::<u16>(), prop::option::weighted(0.8, any::<u8>()), vec(bone, 0..=6), prop::bool::weighted(0.7)), 1..=12)
         .prop_flat_map(|nodes| {
             let n = nodes.len();
